@@ -492,3 +492,5 @@ def run(prog: Program, rep: Report, tier: str):
     sub.rule("R09.7", "", 0)
     c11.r11_7(prog, sub, rule="R09.7")
     absorb(rep, sub, {"R09.7": "R09.7"})
+    c11.class_name_not_stripped(prog, rep, "R09.7")
+    c11.module_binds_name(prog, rep, "R09.7")
